@@ -344,7 +344,7 @@ def first_frame(err):
         m = re.search(r"(/repo/[^\s:]+|include/m17cxx/[^\s:]+|apps/[^\s:]+):(\d+)", l)
         if m:
             return os.path.basename(m.group(1)) + ":" + m.group(2)
-    m = re.search(r"([A-Za-z0-9_]+\.(?:h|cpp)):(\d+)", err)
+    m = re.search(r"([A-Za-z0-9_]+\.(?:h|cpp)):(\d+)", err) or re.search(r"/usr/include/c\+\+/\d+/([A-Za-z0-9_/.]+):(\d+)", err)
     return (m.group(1) + ":" + m.group(2)) if m else "unknown"
 
 
